@@ -18,12 +18,46 @@ HERE = os.path.dirname(os.path.abspath(__file__))
 _PINNED = None
 
 
+_PINNED_FP = {}
+
+
 def pinned_functions():
-    global _PINNED
+    global _PINNED, _PINNED_FP
     if _PINNED is None:
         p = os.path.join(HERE, "tables", "pinned_functions.json")
-        _PINNED = set(json.load(open(p))) if os.path.exists(p) else None
+        if os.path.exists(p):
+            d = json.load(open(p))
+            _PINNED = set(d)
+            _PINNED_FP = d if isinstance(d, dict) else {}
     return _PINNED
+
+
+def fingerprint(b):
+    """Name-independent summary of a raw body: argument count, multiset of callees and constants."""
+    import hashlib
+    items = ["args=%d" % b.get("arg_count", 0), "kind=" + b.get("kind", "")]
+    own = b["path"]
+    for blk in b["blocks"]:
+        if blk.get("cleanup"):
+            continue
+        t = blk["term"]
+        if t["k"] == "call":
+            c = t.get("resolved_full") or t.get("callee", "")
+            if t.get("resolved_local"):
+                items.append("c:<crate-local>")  # its name may have changed in the same commit
+            elif own not in c:
+                items.append("c:" + c)
+        elif t["k"] in ("switch", "assert"):
+            items.append("t:" + t["k"])
+        for st in blk["stmts"]:
+            if st["k"] == "assign":
+                rv = st["rv"]
+                ops = list(rv.get("ops") or []) + ([rv["op"]] if isinstance(rv.get("op"), dict) else [])
+                for o in ops:
+                    if isinstance(o, dict) and "const" in o:
+                        items.append("k:" + str(o["const"].get("repr", ""))[:60])
+    items.sort()
+    return hashlib.sha1("\n".join(items).encode()).hexdigest()[:16]
 
 
 # closures handed to iterator adaptors/consumers that are NOT desugared into loops: their body is spliced once at the
@@ -61,6 +95,20 @@ def moved_alias(by_path):
         c = gone.get(basename(r), [])
         if len(c) == 1 and sum(1 for r2 in by_path if r2 not in pin and "{closure" not in r2 and basename(r2) == basename(r)) == 1:
             out[r] = c[0]
+    # renamed: a reviewed path is gone and exactly one new function has its fingerprint (same calls and constants)
+    if _PINNED_FP:
+        gone_fp = {}
+        for q in pin:
+            if q not in by_path and "{closure" not in q and q not in out.values() and _PINNED_FP.get(q):
+                gone_fp.setdefault(_PINNED_FP[q], []).append(q)
+        new_fp = {}
+        for r, b in by_path.items():
+            if r not in pin and "{closure" not in r and r not in out and b.get("kind") in ("Fn", "AssocFn"):
+                new_fp.setdefault(fingerprint(b), []).append(r)
+        for fp_, olds in gone_fp.items():
+            news = new_fp.get(fp_, [])
+            if len(olds) == 1 and len(news) == 1:
+                out[news[0]] = olds[0]
     return out
 
 
